@@ -8,15 +8,18 @@ CHECKS = {
  "C08": dict(
   text=("Theorems on the model of RecipeSpecStore over any sub-store model (Props/C08.lean): a declared key is listed, contained and carries status 'recipe' with the declared "
         "title/description before it exists; for EVERY history of reads/listings/removals/cleans the evaluation log grows only at a get_bytes of a declared key the sub-store "
-        "does not contain (induction over the history); over the MemoryStore model: a first read evaluates once, stores the evaluator's bytes for the key's extension with status "
-        "'ready' and the recipe's name/version, remove resets to 'recipe', a failing recipe leaves error metadata and no data; relative references resolve by C19's POSIX "
+        "does not contain (induction over the history); over the MemoryStore model AND over the FileStore model (the *_file theorems, for plain keys whose path is writable: "
+        "no file on the way, not a directory): a first read evaluates once, stores the evaluator's bytes for the key's extension with status 'ready' and the recipe's "
+        "name/version, later reads are served from the sub-store, remove resets to 'recipe', a failing recipe leaves error metadata and no data (the FileStore then has no "
+        "data file, so a second read evaluates again - c08_failure_file states exactly that; the MemoryStore keeps a metadata-only entry and does not); relative references "
+        "resolve by C19's POSIX "
         "normalisation against the recipe's directory. Correspondence: generated recipes files (plain/dict form, sections, relative/absolute references, failing recipes) at depth "
         "0-2 of Memory/File-backed recipe stores mounted in the global store, histories <= 10 operations, every result + key universe + key listing + evaluation log vs the model; "
         "oracle: bytes = directly evaluated query serialised for the key's extension, independent status state machine, evaluation-log rules."),
   note=("Trusted: Lean kernel; LiquerModel/Recipes.lean mirror of resolve_recipe_definition / NewRecipeSpecStore / QueryRecipe.make / Context._store_state / evaluate_resource / "
         "clean_recipes (tied by correspondence); the evaluator is a parameter evalQ(resolved text, extension) tabulated per case by direct evaluation (C01/C11 are about it); YAML "
-        "loading and recipes_status.txt are not modelled; first_read/remove/failure theorems are for the MemoryStore sub-store model (FileStore sub-store: correspondence + "
-        "concrete model runs; partial in that respect)."),
+        "loading is not modelled; the dependency theorems (c08_first_read_dep*) carry their writability hypotheses on the state the dependency read leaves (a global "
+        "'no declared key is a prefix of another' invariant is not proved)."),
  ),
  "C18": dict(
   text=("Theorems about the metadata record of the evaluator model for EVERY query, fuel, as-typed text, extra parameters and input (Props/C18.lean): outcome = reference "
